@@ -3,7 +3,7 @@
 From Coq Require Import List NArith ZArith Znumtheory Bool Lia Arith.
 From GmsmVerif Require Import Lib.Outcome EC.ECAffine EC.SM2Curve SM3.SM3Spec
      SM2.SM2Bytes SM2.SM2BytesProofs SM2.SM2Spec SM2.DER SM2.DERProofs SM2.SM2Model SM2.SM2SignProofs
-     SM2.SM2Group SM2.SM2EncProofs.
+     SM2.SM2GroupMin SM2.SM2EncProofs.
 Import ListNotations.
 Open Scope Z_scope.
 
@@ -155,15 +155,15 @@ Proof.
   - rewrite xor_bytes_length. unfold t. rewrite kdf_spec_length. lia.
 Qed.
 
-Lemma DecryptAsn1_EncryptAsn1 (F : SM2Facts) fuel d M rho der rho' :
+Lemma DecryptAsn1_EncryptAsn1 (Hp : P_prime) (Hassoc : Add_assoc) (Hfin : G_multiples_finite) fuel d M rho der rho' :
   1 <= d < sm2_n -> (length rho / 40 < fuel)%nat -> Z.of_nat (length M) < 65000 ->
   EncryptAsn1 fuel (ScalarBaseMult d) M rho = Ok (der, rho') ->
   DecryptAsn1 (key_of d) der = Ok M.
 Proof.
   intros Hd Hf HM H. unfold EncryptAsn1 in H.
   destruct (Encrypt fuel (ScalarBaseMult d) M rho 0) as [[c r']| | |] eqn:E; try discriminate. cbn [obind] in H.
-  pose proof (Decrypt_Encrypt F fuel d M rho 0 c r' Hd Hf E) as HD.
-  destruct (ScalarBaseMult_decode F d Hd) as (Hdec & Hx & Hy).
+  pose proof (Decrypt_Encrypt Hp Hassoc Hfin fuel d M rho 0 c r' Hd Hf E) as HD.
+  destruct (ScalarBaseMult_decode Hp Hfin d Hd) as (Hdec & Hx & Hy).
   assert (HMne : M <> []) by (intros ->; discriminate).
   rewrite Encrypt_is_spec in E by assumption.
   destruct (encrypt_spec _ M rho (order_of 0)) as [[i c0]|] eqn:Es; [|discriminate].
